@@ -16,7 +16,7 @@ import warnings
 
 import numpy as np
 
-from .. import cases, facts
+from .. import cases, facts, unictlgen
 from .. import lifecycle as L
 from ..core import REPO
 
@@ -1175,8 +1175,21 @@ def _run(ctx):
     for p in problems:
         ctx.obligation('translation:c19facts', False, 'translation', p)
     ctx.extra['facts'] = {k: v for k, v in pyfacts.items() if k != 'shapes'}
+    # second tie of the univariate base classes: the control skeleton of copulas/univariate/base.py translated statement by statement
+    # (Gen_unictl.v); Props/C19.v proves every generated definition equal to Model.Lifecycle (C19_bridge_*).  A failure here does not
+    # stop the correspondence and the witness search below.
+    statusu = unictlgen.generate(ctx)
+    for k in unictlgen.PARTS:
+        ctx.obligation(f'translate:{k}', statusu.get(k, 'not attempted') is None, 'translation', statusu.get(k) or '')
+    ctx.rule('translation: Univariate.check_fit / _replace_constant_methods / _set_constant_value / _check_constant_value / to_dict / '
+             'from_dict / _set_params and ScipyModel.fit / _set_params / _get_params / probability_density / cumulative_distribution / '
+             'percent_point / log_probability_density / sample are translated from the AST on every run into Gen_unictl.v (strict shape '
+             'check, fail-closed; statement order, assigned attributes, guards, exception classes, the bound / popped method names, the '
+             'scipy method delegated to, decorators, `check_fit first`, `fitted = True last` from the source text); the C19_bridge_* '
+             'theorems prove them equal to Model.Lifecycle (set_constant, fit_scipy, set_params_scipy, query_scipy, to_dict_scipy, '
+             'from_dict_scipy) for all states and inputs')
     ctx.copy_src('Props/C19.v')
-    ctx.compile(['Gen_c19facts.v', 'C19.v'])
+    ctx.compile(['Gen_c19facts.v', 'Gen_unictl.v', 'C19.v'])
     ctx.rule('correspondence: random histories (3..8 events: fit 42% / query 40% (cdf,pdf,ppf,logpdf,sample[,partial]) / to_dict 11% / '
              'get_instance 7%) per object configuration: 8 ScipyModel families (default, seeded; TruncatedGaussian without/with one/both '
              'bounds; GaussianKDE with sample_size 1/5/8/30, bw_method scott/silverman/scalar/invalid, weights), Univariate wrapper '
@@ -1199,6 +1212,10 @@ def _run(ctx):
     witness_search(ctx)
     ctx.trusted += ['coq/Model/Lifecycle.v is a hand-written transcription of the fit/query/serialisation paths of the ScipyModel families, '
                     'Univariate, Bivariate, GaussianMultivariate and get_instance (tied by the history correspondence and the AST facts)',
+                    'tools/vf/unictlgen.py: the m_* / py_* vocabulary (fixed header of Gen_unictl.v: the state monad, attribute access, the override '
+                    'table, the np.unique summary, scipy delegation, @random_state, get_instance / method resolution for from_dict) and the '
+                    'shape-checking translator; the family hooks _fit / _fit_constant / _is_constant / _extract_constant, the _constant_* methods '
+                    'and GaussianKDE\'s overrides stay hand-written in Model/Lifecycle.v',
                     'tools/vf/lifecycle.py: recorders at the scipy/numpy boundary, canonicalisation of observations, oracle tables',
                     'scipy/numpy results enter the model as table values (no claim about scipy itself)']
 
